@@ -422,8 +422,10 @@ def step_correspondence(prop, tier, seed, harness, replay=None):
             if probs:
                 failures.append((i, "; ".join(probs), impl[i], ml))
     # a differing E1 digest is expanded into its explicit cases to find the concrete input
+    expanded = 0
     for (i, why, il, ml) in list(failures):
-        if cases[i].startswith("E1 ") and il.startswith("dg="):
+        if cases[i].startswith("E1 ") and il.startswith("dg=") and expanded < 3:
+            expanded += 1
             rc, out = sh([harness, "expand", "E1", cases[i].split(" ")[1]], timeout=600)
             sub = [l for l in out.split("\n") if l]
             stext = "\n".join(sub) + "\n"
@@ -585,7 +587,7 @@ def main():
         if nrep < 5:
             nrep += 1
             extra = None
-            if isinstance(idx, int) and idx < len(cases) and harness and not replay:
+            if isinstance(idx, int) and idx < len(cases) and harness and not replay and not os.environ.get("VERIF_NO_SHRINK"):
                 try:
                     small = shrink(prop, harness, cases, idx, registry.check_case)
                     if small:
